@@ -33,6 +33,9 @@ def run(ctx):
         for _ in range(12 if ctx.quick else 40):     # the order the engine looks at a stage's fields in changes between preparations
             wfs.append(w)
             kinds.append('invalid-next-to-an-any-typed-field:' + name)
+    for name, w in pc.self_cycle_shapes():
+        wfs.append(w)
+        kinds.append('invalid-' + name)
     for name, w in pc.group_collision_shapes():
         for _ in range(6 if ctx.quick else 20):
             wfs.append(w)
